@@ -1853,7 +1853,16 @@ impl DtlsInner {
                         } else {
                             (&keys.server_write_key, &keys.server_write_iv)
                         };
-                        let full_seq = ((ctx.epoch as u64) << 48) | ctx.sequence_number;
+                        // Once connected, application data takes its record
+                        // sequence numbers from `write_seq` (seeded from
+                        // ctx.sequence_number); the alert must draw from the same
+                        // counter or it reuses the nonce of the first data record.
+                        let alert_seq = if matches!(*self.state.lock(), DtlsState::Connected(..)) {
+                            self.write_seq.fetch_add(1, Ordering::SeqCst)
+                        } else {
+                            ctx.sequence_number
+                        };
+                        let full_seq = ((ctx.epoch as u64) << 48) | alert_seq;
                         if let Ok(encrypted) = encrypt_record(
                             ContentType::Alert,
                             ProtocolVersion::DTLS_1_2,
@@ -1866,7 +1875,7 @@ impl DtlsInner {
                                 content_type: ContentType::Alert,
                                 version: ProtocolVersion::DTLS_1_2,
                                 epoch: ctx.epoch,
-                                sequence_number: ctx.sequence_number,
+                                sequence_number: alert_seq,
                                 payload: Bytes::from(encrypted),
                             };
                             let mut buf = BytesMut::new();
